@@ -2347,8 +2347,9 @@ func c14SliceNameOrigin(p *Program, key ssa.Value, deploy *ssa.Parameter, listCa
 	return ""
 }
 
-// c14OnlyMeasured: the loaded Objects slice is used for nothing but len()/cap() (a log line or a
-// capacity hint) — that is not a consumer of the phase's objects.
+// c14OnlyMeasured: the loaded Objects slice is used for nothing but len()/cap() whose result goes
+// straight into an `any` argument (a log key/value) — that is not a consumer of the phase's objects.
+// A count that is added up, compared or returned still is one.
 func c14OnlyMeasured(v ssa.Value) bool {
 	refs := referrersOf(v)
 	if len(refs) == 0 {
@@ -2365,6 +2366,21 @@ func c14OnlyMeasured(v ssa.Value) bool {
 		b, isB := ci.Common().Value.(*ssa.Builtin)
 		if !isB || (b.Name() != "len" && b.Name() != "cap") {
 			return false
+		}
+		val := ci.Value()
+		if val == nil {
+			return false
+		}
+		uses := referrersOf(val)
+		if len(uses) == 0 {
+			return false
+		}
+		for _, u := range uses {
+			switch u.(type) {
+			case *ssa.MakeInterface, *ssa.DebugRef:
+			default:
+				return false
+			}
 		}
 	}
 	return true
